@@ -70,19 +70,24 @@ structure ScanAcc where
   st : Index
   /-- `processed_files` -/
   processed : List Path
-  /-- files walked earlier that became plugin files in this round: walked again in the next one -/
+  /-- cached files to walk in the next round: imported modules not walked so far, and files that
+      became plugin files after they were walked -/
   rewalk : List Path
 
 /-- one resolved import target: optionally mark it as a plugin file (queueing it for re-analysis
     when it is already cached, and for another walk when its imports were walked before it became a
-    plugin file), and queue it as a new module when it is neither processed nor cached. -/
+    plugin file); when it is not processed, queue it as a new module (not cached: analysed, then
+    walked) or for a walk as it is (cached, e.g. opened in the editor before the scan). -/
 def importStep (mark : Bool) (acc : ScanAcc) (target : Path) : ScanAcc :=
   let marking := mark && !acc.st.pluginFiles.contains target
   let st' := if marking then { acc.st with pluginFiles := acc.st.pluginFiles ++ [target] } else acc.st
   let re' := if marking && ahas acc.st.cache target && !acc.re.contains target then acc.re ++ [target] else acc.re
   let again := marking && acc.processed.contains target
   let processed' := if again then acc.processed.filter (fun g => g != target) else acc.processed
-  let rewalk' := if again && !acc.rewalk.contains target then acc.rewalk ++ [target] else acc.rewalk
+  -- every imported module that is not processed gets its own imports walked: after its analysis
+  -- when it is new (`news`), as it is when it is already cached (`rewalk`)
+  let rewalk' := if (again || (!processed'.contains target && ahas acc.st.cache target)) && !acc.rewalk.contains target
+    then acc.rewalk ++ [target] else acc.rewalk
   let news' := if !processed'.contains target && !ahas acc.st.cache target && !acc.news.contains target
     then acc.news ++ [target] else acc.news
   { news := news', re := re', st := st', processed := processed', rewalk := rewalk' }
